@@ -102,6 +102,13 @@ func GetToken(input string, valTy *ValType, pos *int) int {
 	switch zzc {
 %(cases)s
 	}
+	// 'u'..'x' (when they are no tokens of the grammar): the codes just above the largest token code - the numbers yaccgo
+	// gives the nonterminals internally; they are codes of no token
+	if zzc >= 20 && zzc <= 23 {
+		zzm := 0
+		for _, zzk := range []int{%(codes)s} { if zzk > zzm { zzm = zzk } }
+		return zzm + (24 - zzc)
+	}
 	return 7777
 }
 func render(v *ValType) string {
@@ -189,6 +196,7 @@ function GetToken(input :string, model:{ValType :ValType, pos :number}) :number 
 	switch (zzc) {
 %(cases)s
 	}
+	if (zzc >= 20 && zzc <= 23) { return Math.max(0, ...[%(codes)s]) + (24 - zzc) }
 	return 7777;
 }
 function RunFresh(input :string) :string {
@@ -209,14 +217,14 @@ for (const job of %(jobs)s) {
 
 def go_text(g, pkg, obj):
     cases = ''.join('\tcase %d:\n\t\tvalTy.%s = zzx\n\t\treturn %s\n' % (i, t['tag'], tok_expr(g, i, 'go')) for i, t in enumerate(g['terms']))
-    epi = GO_EPI % dict(cases=cases, starttag=g['nonterms'][g['start']]['tag'], modefuncs=GO_OBJECT if obj else GO_GLOBAL)
+    epi = GO_EPI % dict(cases=cases, codes=', '.join(tok_expr(g, i, 'go') for i in range(len(g['terms']))) or '0', starttag=g['nonterms'][g['start']]['tag'], modefuncs=GO_OBJECT if obj else GO_GLOBAL)
     head = '%{\npackage ' + pkg + '\nimport "fmt"\nimport "strings"\n%}\n%union {\n v0 int\n v1 int\n v2 int\n zzseq int\n}\n'
     return head + decl_block(g, 'go') + '%%\n' + gram.render_rules(g, (lambda i, r: go_action(i, r, True)) if g.get('plain_actions') else go_action) + '%%\n' + epi
 
 
 def ts_text(g, jobs):
     cases = ''.join('\tcase %d:\n\t\tmodel.ValType.%s = zzx;\n\t\treturn %s;\n' % (i, t['tag'], tok_expr(g, i, 'ts')) for i, t in enumerate(g['terms']))
-    epi = TS_EPI % dict(cases=cases, starttag=g['nonterms'][g['start']]['tag'], jobs=json.dumps(jobs))
+    epi = TS_EPI % dict(cases=cases, codes=', '.join(tok_expr(g, i, 'ts') for i in range(len(g['terms']))) or '0', starttag=g['nonterms'][g['start']]['tag'], jobs=json.dumps(jobs))
     head = '%{\n"use strict";\n%}\n%union {\n v0 :number = 0;\n v1 :number = 0;\n v2 :number = 0;\n}\n'
     return head + decl_block(g, 'ts') + '%%\n' + gram.render_rules(g, (lambda i, r: ts_action(i, r, True)) if g.get('plain_actions') else ts_action) + '%%\n' + epi
 
